@@ -5,7 +5,7 @@
 //! condition tags, entry()/exit(), and the predecessor/successor/edges_in/edges_out query results
 //! of every block).  Trace_C15.tla judges; nothing here computes an expected value.
 //!
-//!   c15 --mode random   --n SESSIONS [--maxops 60] --out FILE        (VERIF_SEED)
+//!   c15 --mode random   --n SESSIONS [--maxops 60] [--salt S] --out FILE   (VERIF_SEED)
 //!   c15 --mode blockify --n CASES --out FILE
 //!   c15 --mode targeted --out FILE          (generator cases from the model findings of CfgImpl.tla)
 //!   c15 --mode replay --in FILE --out FILE  (re-drive the descriptors of a recorded trace)
@@ -513,7 +513,8 @@ fn main() {
     fv::quiet_panics();
     let mode = fv::arg_str("mode", "random");
     let mut out = Out::create(&fv::arg_str("out", "/dev/stdout"));
-    let mut rng = Rng::new(fv::seed_from_env() ^ 0xC15);
+    // --salt separates the streams of several recorder jobs of one run (same VERIF_SEED)
+    let mut rng = Rng::new(fv::seed_from_env() ^ 0xC15 ^ (fv::arg_u64("salt", 0) << 20));
     match mode.as_str() {
         "random" => random_sessions(&mut out, &mut rng, fv::arg_u64("n", 50), fv::arg_u64("maxops", 60) as usize),
         "blockify" => blockify_cases(&mut out, &mut rng, fv::arg_u64("n", 50)),
